@@ -225,7 +225,7 @@ def run(ctx, res):
         res.ob(False)
         res.finding("census|%s" % k, "%s owns %d panic obligation(s) (%s) that no analysis covers and that are not allow-listed" % (k, len(rest), ", ".join("%s@%s" % (w.split("::")[-1], ln) for _, w, ln in rest[:4])))
     res.ob(not unvisited)
-    res.floor("panic obligation sites", nob, 380)
+    res.floor("panic obligation sites", nob, 380 if facts.overflow_checks else 60)
     res.floor("bodies reachable from run", len(reach), 300)
     # (c) cost-function contexts
     k_cs = facts.body("cpu::Cpu::calc_state")["key"]
